@@ -9,6 +9,6 @@ DEMO=$(basename $(ls $D/demo_*.rs | head -1) .rs)
 cd $W
 echo "== without patch: demo"; cargo test --offline --test $DEMO 2>&1 | grep "test result" | head -3
 git apply $D/patch.diff || { echo "PATCH DOES NOT APPLY"; cd /; git -C /repo worktree remove --force $W; exit 2; }
-echo "== with patch: existing suite"; cargo test --offline 2>&1 | grep "test result\|FAILED\|failed" | grep -v "$DEMO" | head -12
+echo "== with patch: existing suite"; cargo test --offline --no-fail-fast 2>&1 | grep "test result\|Running" | grep -v "$DEMO" | head -12
 echo "== with patch: demo"; cargo test --offline --test $DEMO 2>&1 | grep "test result\|panicked" | head -4
 cd /; git -C /repo worktree remove --force $W
